@@ -72,3 +72,11 @@ chk("C14", "ENV", "fault_enumeration",
     "consecutive output syscalls); rdsquashfs -d/-l, sqfs2tar and the independent decoder are applied to each leftover file: all reject, or all accept and the tree is complete.",
     "Whole-syscall granularity as the property states; writes assumed to reach the file in program order.",
     "exhaustive crash-point enumeration on the real packers", "3/C14")
+
+chk("C02", "SCHED", "model_checking",
+    "Schedules: the real block processor (frontend/backend/block_processor.c, block_writer.c, frag_table.c) on the real threadpool.c under the controlled scheduler; for "
+    "12 (quick) / 18 (thorough) file scenarios (tails, fragment dedup, sparse, fragment-block overflow followed by data blocks, duplicate files with dedup-truncate, "
+    "DONT_FRAGMENT/DONT_DEDUPLICATE) x workers {1,2,3} x backlog {3,4,10} every interleaving (complete for <=2 workers, preemption-bounded for 3) must reproduce the serial pool's "
+    "bytes, inodes and fragment table. Configurations: -j x -Q grid and CPU-affinity masks on the real tools vs the NO_THREAD_IMPL build. Environment: full product clock x TZ x locale x umask x cwd.",
+    "Toy RLE compressor and 32-byte blocks in the schedule harness; sync-operation granularity; CLI runs contribute one OS schedule each.",
+    "stateless model checking (preemption bounding + state-hash pruning) of the implementation against a serial reference, plus exhaustive configuration/environment grids", "3/C02")
